@@ -483,6 +483,12 @@ func stripConv(v ssa.Value) ssa.Value {
 						return c
 					}
 				}
+				if fa, ok := x.X.(*ssa.FieldAddr); ok {
+					if cv := ctxField(fa, fa.X); cv != nil {
+						v = cv
+						continue
+					}
+				}
 			}
 		}
 		return v
@@ -512,7 +518,58 @@ func canonX(v ssa.Value) ssa.Value {
 // staticSites: every static call site of every go-nfsd function, built once per program.
 var staticSites map[*ssa.Function][]ssa.CallInstruction
 
+// fieldWriteIdx: every store to a field of a go-nfsd struct type, by "type.field" (built with staticSites).
+var fieldWriteIdx map[string][]FieldWrite
+
+// ctxField: the value of field fa of the local struct base (an Alloc: the context object of a function that was
+// split into phases) when the field is written exactly once in the whole program, at the construction of this
+// very object.
+func ctxField(fa *ssa.FieldAddr, base ssa.Value) ssa.Value {
+	al, ok := base.(*ssa.Alloc)
+	if !ok || fieldWriteIdx == nil {
+		return nil
+	}
+	n := derefNamed(al.Type())
+	if n == nil {
+		return nil
+	}
+	st, ok := n.Underlying().(*types.Struct)
+	if !ok || fa.Field >= st.NumFields() {
+		return nil
+	}
+	ws := fieldWriteIdx[n.Obj().Pkg().Path()+"."+n.Obj().Name()+"."+st.Field(fa.Field).Name()]
+	if len(ws) != 1 || ws[0].Element || ws[0].Val == nil {
+		return nil
+	}
+	wb := ws[0].Base
+	for i := 0; i < 4; i++ {
+		switch x := wb.(type) {
+		case *ssa.Convert:
+			wb = x.X
+			continue
+		case *ssa.ChangeType:
+			wb = x.X
+			continue
+		}
+		break
+	}
+	if wb != ssa.Value(al) {
+		return nil
+	}
+	// the object must not be re-made in a loop around its users (one construction, then use)
+	return ws[0].Val
+}
+
 func buildStaticSites(p *Program) {
+	fieldWriteIdx = map[string][]FieldWrite{}
+	for _, fn := range p.RepoFuncs() {
+		for _, w := range FieldWrites(fn) {
+			if w.Type != nil && w.Type.Obj().Pkg() != nil {
+				k := w.Type.Obj().Pkg().Path() + "." + w.Type.Obj().Name() + "." + w.Field
+				fieldWriteIdx[k] = append(fieldWriteIdx[k], w)
+			}
+		}
+	}
 	staticSites = map[*ssa.Function][]ssa.CallInstruction{}
 	for _, fn := range p.RepoFuncs() {
 		for _, b := range fn.Blocks {
@@ -956,6 +1013,17 @@ func (s Subst) resolve(v ssa.Value) ssa.Value {
 			v = a
 			continue
 		case *ssa.UnOp:
+			// a field of a context object handed down as a parameter: the value it was constructed with
+			if x.Op == token.MUL {
+				if fa, ok := x.X.(*ssa.FieldAddr); ok {
+					if _, isParam := fa.X.(*ssa.Parameter); isParam {
+						if cv := ctxField(fa, s.resolve(fa.X)); cv != nil {
+							v = cv
+							continue
+						}
+					}
+				}
+			}
 			// load through a variable captured by reference: the cell of the enclosing function
 			if x.Op == token.MUL {
 				if fv, ok := x.X.(*ssa.FreeVar); ok {
